@@ -76,7 +76,11 @@ def check_model(pel, plugins, note):
         raise Violation('C01.names', 'top-level entries %r, expected %r' % (got, want),
                         sig='C01.names')
     # (b) cursor
-    if o.starts != offs[:-1]:
+    if not o.starts:
+        # the harness-side recorder on peltool.parseHeader saw nothing (the decoder no longer goes through
+        # it): the per-section offsets cannot be observed, the final cursor below still can
+        note.label('no-offset-recorder')
+    elif o.starts != offs[:-1]:
         raise Violation('C01.offsets', 'sections were read at offsets %r, they start at %r'
                         % (o.starts, offs[:-1]), sig='C01.offsets')
     if o.index != len(data):
